@@ -141,6 +141,10 @@ def invoke(fid: str, kwargs: dict[str, Any], res: Any = None) -> Any:
     outs = fd["outputs"]
     if fd.get("retnone"):
         res = None if len(outs) == 1 else tuple(None for _ in outs)
+    elif fd.get("picker") and len(outs) > 1:
+        # a custom output_picker: the function returns a mapping keyed by the (final) output names, listed in REVERSED
+        # order so that a positional pick would be wrong
+        res = {o: value(o) for o in reversed(outs)}
     else:
         res = value(outs[0]) if len(outs) == 1 else tuple(value(o) for o in outs)
     emit("ret")
@@ -212,11 +216,18 @@ def make_pipefunc(fd: dict, tag: str = ""):
         src_param = fd["rescpus"]
         reskw = {"resources": (lambda kw, _p=src_param: Resources(cpus=len(kw[_p]))), "resources_variable": "res",
                  "resources_scope": "map"}
+    if fd.get("picker") and len(outs) > 1 and not fd.get("retnone"):
+        reskw["output_picker"] = pick_by_name
     pf = PipeFunc(fn, orig_outs[0] if len(outs) == 1 else tuple(orig_outs), renames=renames or None, **reskw,
                   defaults=defaults or None, bound=bound or None, mapspec=fd.get("mapspec"),
                   internal_shape=tuple(ishape) if ishape else None, cache=bool(fd.get("cache", False)))
     pf._pfverif_id = fid  # noqa: SLF001
     return pf
+
+
+def pick_by_name(output: Any, name: str) -> Any:
+    """The custom output_picker of `picker` functions (module level: picklable for process pools)."""
+    return output[name]
 
 
 def make_cache_kwargs(desc: dict) -> dict:
